@@ -387,3 +387,62 @@ def class_names(info):
     return [f"power-{info['power']}", 'object-finite' if info['finite'] else 'object-infinite',
             f"mirrors-{min(info['mirrors'], 2)}{'+' if info['mirrors'] > 2 else ''}",
             f"stop-{info['stop']}", f"ap-{info['ap']}", f"field-{info['field']}"]
+
+
+# ---------------------------------------------------------------------------
+# general (non axially symmetric) decoration of an axial lens
+
+def decorate(spec, rng, a, tilt_p=0.3, decenter_p=0.3, freeform_p=0.3, cheb_norm1=False, big_tilt_p=0.1):
+    """Turn some surfaces of an axial spec into xy-polynomial / Chebyshev surfaces and add
+    tilts / decentres.  `a` is the entrance semi-diameter (sets the size of the perturbations).
+    Returns the list of class names added."""
+    classes = []
+    for s in spec['surfaces'][:-1]:
+        R = fnum(s.get('radius', 'inf'))
+        if s.get('type', 'standard') == 'standard' and rng.random() < freeform_p:
+            kind = 'polynomial' if rng.random() < 0.5 else 'chebyshev'
+            s['type'] = kind
+            s['conic'] = float(s.get('conic', 0.0))
+            ni, nj = int(rng.integers(1, 5)), int(rng.integers(1, 5))
+            if kind == 'polynomial':
+                C = [[0.0] * nj for _ in range(ni)]
+                for i in range(ni):
+                    for j in range(nj):
+                        if i + j >= 2 and rng.random() < 0.7:
+                            C[i][j] = float(rng.normal() * 0.01 * a / (2 * a) ** (i + j))
+                        elif i + j == 1 and rng.random() < 0.3:
+                            C[i][j] = float(rng.normal() * 0.003)
+                s['coeffs'] = C
+            else:
+                nrm = 1.0 if cheb_norm1 else float(round(rng.uniform(2.5, 6.0) * a, 3))
+                C = [[0.0] * nj for _ in range(ni)]
+                for i in range(ni):
+                    for j in range(nj):
+                        if i + j >= 1 and rng.random() < 0.7:
+                            C[i][j] = float(rng.normal() * 0.01 * a)
+                s['coeffs'] = C
+                s['norm'] = [nrm, nrm if rng.random() < 0.5 or cheb_norm1 else float(round(rng.uniform(2.5, 6.0) * a, 3))]
+            if rng.random() < 0.5:
+                s['tol'] = 1e-10
+            classes.append(f'shape-{kind}')
+        if rng.random() < tilt_p:
+            big = rng.random() < big_tilt_p and math.isinf(R)
+            amp = 0.3 if big else 0.04
+            s['rx'] = float(round(rng.uniform(-amp, amp), 6))
+            if rng.random() < 0.6:
+                s['ry'] = float(round(rng.uniform(-amp, amp), 6))
+            classes.append('tilted-big' if big else 'tilted')
+        if rng.random() < decenter_p:
+            s['dx'] = float(round(rng.normal() * 0.03 * a, 6))
+            s['dy'] = float(round(rng.normal() * 0.03 * a, 6))
+            classes.append('decentred')
+    return classes
+
+
+def vertex_positions(spec):
+    """z of vertices 0..K (object first; -inf for an infinite object), vertex 1 at z = 0."""
+    t0 = fnum(spec['obj_t'])
+    z = [-t0, 0.0]
+    for s in spec['surfaces'][:-1]:
+        z.append(z[-1] + float(s.get('t', 0.0)))
+    return z
